@@ -68,6 +68,21 @@ where
 
         let from = stored_len * Self::SIZE_OF_T + HEADER_OFFSET;
 
+        if expanded {
+            // After rollback the elements in [real_stored_len, stored_len) live only in
+            // `updated` (or are holes). Put them on disk first so that appends and
+            // positional writes below start inside the region.
+            let mut bytes = Vec::with_capacity((stored_len - real_stored_len) * Self::SIZE_OF_T);
+            for index in real_stored_len..stored_len {
+                match self.updated().get(&index) {
+                    Some(value) => S::write_to_vec(value, &mut bytes),
+                    None => bytes.resize(bytes.len() + Self::SIZE_OF_T, 0),
+                }
+            }
+            self.region()
+                .write_at(&bytes, real_stored_len * Self::SIZE_OF_T + HEADER_OFFSET)?;
+        }
+
         if has_new_data {
             // Take the pushed buffer to free its heap allocation after writing.
             let taken = mem::take(self.base.mut_pushed());
